@@ -557,6 +557,12 @@ fn op_new(cx: &mut Ctx, s: usize, hb: HB, cap: usize) {
             if m.capacity() < cap {
                 vio("C10", format!("with_capacity({}) gave capacity {}", cap, m.capacity()));
             }
+            // the default-hasher constructors follow the same allocation policy
+            let d: griddle::HashMap<K, V> = griddle::HashMap::with_capacity(cap);
+            let ds: griddle::HashSet<K> = griddle::HashSet::with_capacity(cap);
+            if d.capacity() != m.capacity() || ds.capacity() != m.capacity() || !d.is_empty() || !ds.is_empty() {
+                vio("C10", format!("with_capacity({}): capacity {} with a hasher, {} (map) / {} (set) with the default one", cap, m.capacity(), d.capacity(), ds.capacity()));
+            }
         }
     }
 }
@@ -1500,10 +1506,15 @@ fn op_entry(cx: &mut Ctx, s: usize, k: u64, steps: Vec<Step>, fuse: Option<u64>)
                         write_v(cx, r, *w);
                     }
                     Step::OrInsertWith(v, w) => {
-                        let r = cur.or_insert_with(|| {
-                            cb();
-                            V::new(*v)
-                        });
+                        // or_default() is or_insert_with(Default::default); V::default() is the value 0
+                        let r = if *v == 0 {
+                            cur.or_default()
+                        } else {
+                            cur.or_insert_with(|| {
+                                cb();
+                                V::new(*v)
+                            })
+                        };
                         obs.push(Out::N(r.get()));
                         write_v(cx, r, *w);
                     }
@@ -1690,7 +1701,8 @@ fn op_raw_entry(cx: &mut Ctx, s: usize, variant: u64, k: u64, steps: Vec<Step>, 
                 1 => b.from_key_hashed_nocheck(hash, probe),
                 _ => b.from_hash(hash, |q| q.class == k),
             });
-            for st in &steps {
+            let nsteps = steps.len();
+            for (sti, st) in steps.iter().enumerate() {
                 let cur = e.take().expect("chain continues after a terminal step");
                 match st {
                     Step::AndModify(d) => {
@@ -1782,8 +1794,35 @@ fn op_raw_entry(cx: &mut Ctx, s: usize, variant: u64, k: u64, steps: Vec<Step>, 
                                 e = Some(RawEntryMut::Occupied(oe));
                             }
                             Step::RawOccKeyValue => {
-                                let (kk, vv) = oe.get_key_value();
-                                obs.push(Out::OKV(Some((kk.id, vv.get()))));
+                                // the same observation through each accessor of the handle
+                                let last = sti + 1 == nsteps;
+                                match (cx.opi + sti) % 5 {
+                                    0 => {
+                                        let (kk, vv) = oe.get_key_value();
+                                        obs.push(Out::OKV(Some((kk.id, vv.get()))));
+                                    }
+                                    1 => {
+                                        let (kk, vv) = oe.get_key_value_mut();
+                                        obs.push(Out::OKV(Some((kk.id, vv.get()))));
+                                    }
+                                    2 => {
+                                        let id = oe.key().id;
+                                        obs.push(Out::OKV(Some((id, oe.get().get()))));
+                                    }
+                                    3 => {
+                                        let id = oe.key_mut().id;
+                                        obs.push(Out::OKV(Some((id, oe.get_mut().get()))));
+                                    }
+                                    _ if last => {
+                                        let (kk, vv) = oe.into_key_value();
+                                        obs.push(Out::OKV(Some((kk.id, vv.get()))));
+                                        continue;
+                                    }
+                                    _ => {
+                                        let (kk, vv) = oe.get_key_value();
+                                        obs.push(Out::OKV(Some((kk.id, vv.get()))));
+                                    }
+                                }
                                 e = Some(RawEntryMut::Occupied(oe));
                             }
                             Step::OccRemove => {
